@@ -1791,6 +1791,14 @@ class SpaceUpdater(SharedSpaceOperations):
                 Instruction(self._update_derived_space, (v,))
             )
 
+        # Release the values bound to the references defined in the
+        # deleted spaces, so that their IOSpecs do not outlive them.
+        for child in nodes_removed:
+            removed = self._graph.to_space(child)
+            for name, ref in list(removed.own_refs.items()):
+                if ref.is_defined():
+                    self.model.refmgr.del_ref(removed, name)
+
         self._graph.remove_nodes_from(nodes_removed)
 
         self._instructions.execute()
